@@ -13,7 +13,8 @@ made so far persist, as the specification says).  Reply:
     ok INST CALL* | g:BITS,BITS,… m:PAGES:ADDR=HEX;ADDR=HEX… nan:0|1
 
     INST := inst-ok | inst-trap/<why> | inst-oof | inst-stuck/<why>      (the rest is omitted unless inst-ok)
-    CALL := v:BITS,BITS…[!] | trap/<why>[!] | oof | stuck/<why>           (`!`: store.nanBits is set after the call)
+    CALL := v:BITS,BITS…[!][~H] | trap/<why>[!][~H] | oof | stuck/<why>
+            (`!`: store.nanBits is set after the call; `~H`: hazard mask of this call, omitted when 0)
 
 Values are raw bit patterns; NaN results are canonical.  Memory is listed as its maximal runs of
 non-zero bytes.  After `oof` (fuel exhausted) or `stuck` the remaining calls are not run.
@@ -55,7 +56,8 @@ def mkArgs (m : Module) (fi : Nat) (bits : List Nat) : Option (List Value) := do
   if ft.params.length ≠ bits.length then none
   else pure (List.zipWith Value.ofBits ft.params bits)
 
-def flag (s : Store) : String := if s.nanBits then "!" else ""
+def flag (s : Store) : String :=
+  (if s.nanBits then "!" else "") ++ (if s.hazards = 0 then "" else "~" ++ toString s.hazards)
 
 def runCalls (m : Module) (fuel : Nat) : Store → List (Nat × List Nat) → List String → Store × List String
   | s, [], acc => (s, acc.reverse)
@@ -63,7 +65,7 @@ def runCalls (m : Module) (fuel : Nat) : Store → List (Nat × List Nat) → Li
     match mkArgs m fi bits with
     | none => (s, ("stuck/bad-call" :: acc).reverse)
     | some args =>
-      match invoke m s fi args fuel with
+      match invoke m { s with hazards := 0 } fi args fuel with
       | .values vs s' => runCalls m fuel s' rest (("v:" ++ showVals vs ++ flag s') :: acc)
       | .trap w s' => runCalls m fuel s' rest (("trap/" ++ dash w ++ flag s') :: acc)
       | .outOfFuel => (s, ("oof" :: acc).reverse)
